@@ -3,15 +3,20 @@
 // C18: connections spread over all resolved and mapped addresses, race-free.
 //
 // (a) histories: a single dialling thread, every Fisher-Yates step of the
-//     shuffle in the DNS-caching dial path is an explored choice (math/rand is
-//     replaced by the vrand shim in the instrumented lib/attack.go). Explored
-//     tree oracle: from EVERY reachable state, the next dial can reach every
-//     resolved address of each family.
+//
+//	shuffle in the DNS-caching dial path is an explored choice (math/rand is
+//	replaced by the vrand shim in the instrumented lib/attack.go). Explored
+//	tree oracle: from EVERY reachable state, the next dial can reach every
+//	resolved address of each family.
+//
 // (b) interleavings: two threads dialling the same name concurrently, the
-//     shuffle yields between swaps.
+//
+//	shuffle yields between swaps.
+//
 // (c) connect-to rotation (sequential, exhaustive over small maps/histories).
 // (d) race companion: ../c18race, unrewritten code, free-running, -race, over
-//     every subset (<=3) of the dial-related options in every order.
+//
+//	every subset (<=3) of the dial-related options in every order.
 package c18
 
 import (
@@ -458,13 +463,13 @@ func TestC18(t *testing.T) {
 	R.Assume("dnscache, singleflight, context and the Go resolver run uninstrumented (they never wait for a managed thread); name resolution is answered by an in-process DNS server behind net.DefaultResolver")
 	R.Assume("unsynchronised memory accesses between two hooked operations are not interleaved by the cooperative scheduler: the race companion (free-running, -race, unrewritten code) covers those and is auxiliary")
 	type row struct {
-		Scenario string `json:"scenario"`
-		Bound    int    `json:"preemption_bound"`
-		Done     int    `json:"completed_bound"`
-		Execs    int64  `json:"executions"`
-		States   int64  `json:"states"`
-		Outcomes int    `json:"distinct_outcomes"`
-		Capped   string `json:"capped,omitempty"`
+		Scenario string  `json:"scenario"`
+		Bound    int     `json:"preemption_bound"`
+		Done     int     `json:"completed_bound"`
+		Execs    int64   `json:"executions"`
+		States   int64   `json:"states"`
+		Outcomes int     `json:"distinct_outcomes"`
+		Capped   string  `json:"capped,omitempty"`
 		Wall     float64 `json:"wall_s"`
 	}
 	var rows []row
@@ -558,8 +563,11 @@ func connectTo(R *ev.Run) {
 				}}
 				vegeta.NewAttacker(vegeta.Client(&http.Client{Transport: tr}), vegeta.ConnectTo(m))
 				per := map[string][]string{}
-				for _, s := range seq {
-					addr := []string{srcs[0], srcs[1], "other.test:80"}[s]
+				// unmapped addresses in spellings that a "helpful" normalisation would touch: capitals, a trailing
+				// dot (fully qualified), an IPv6 zone with capitals, and a mapped host with another port
+				unmapped := []string{"other.test:80", "Backend.Internal:8080", "svc.cluster.local.:8080", "[fe80::1%Eth0]:8080", "a.test:81", "A.TEST:80"}
+				for k, s := range seq {
+					addr := []string{srcs[0], srcs[1], unmapped[k%len(unmapped)]}[s]
 					before := len(got)
 					tr.DialContext(context.Background(), "tcp", addr)
 					R.Trans(1)
